@@ -14,7 +14,10 @@ Record item := mkItem { ival : N; iprod : nat; linked : bool; written : bool }.
 Inductive ppc := PIdle | PExch (k : nat) | PLnk (k : nat).
 Record prod := mkProd { todo : list N; pc : ppc }.
 
-Inductive cpc := COut | CDrain | CRead | CAfterLook (found : bool).
+(* consumer: parked; about to drain the notification; about to look (first look of a pop); the pinned code's state after
+   its look; about to look again after the drain; about to write the notification again; holding an entry it has just
+   been given (its caller decides whether to pop again or to stop) *)
+Inductive cpc := COut | CDrain | CRead | CAfterLook (found : bool) | CRead2 | CRenotify | CGot.
 
 Record qstate := mkQ {
   items : list item;       (* in exchange order *)
@@ -37,7 +40,7 @@ Fixpoint upd {A} (l : list A) (k : nat) (f : A -> A) : list A :=
 Definition set_linked (i : item) := mkItem (ival i) (iprod i) true (written i).
 Definition set_written (i : item) := mkItem (ival i) (iprod i) (linked i) true.
 
-Inductive actor := Consumer | Producer (i : nat).
+Inductive actor := Consumer | ConsumerStop | Producer (i : nat).
 
 (* one producer step: exchange / link / notify *)
 Definition pstep (st : qstate) (i : nat) : qstate :=
@@ -70,16 +73,38 @@ Definition look (st : qstate) (found notfound : cpc) : qstate :=
   | None => mkQ (items st) (popped st) (ev st) (prods st) notfound (out st)
   end.
 
-(* one consumer step of the code as it is now: woken only when the eventfd is readable; each
-   pop() drains the notification and then looks at the queue; the caller loops until pop()
-   returns null *)
+(* one consumer step of the code as it is now (fix of the fourth round).  Woken only when the eventfd is readable.  pop():
+   look; an entry that is there is returned, the notification untouched.  Nothing there: drain the notification, look
+   again; an entry found by this second look is returned after the notification has been written again; nothing: null,
+   the consumer is parked.  With an entry in hand ([CGot]) the caller pops again ([Consumer]) or stops and goes back to
+   the event loop ([ConsumerStop]) - the library's loops go on until null, a caller of the class may not. *)
 Definition cstep (st : qstate) : qstate :=
+  match cst st with
+  | COut => if Nat.ltb 0 (ev st)
+            then mkQ (items st) (popped st) (ev st) (prods st) CRead (out st) else st
+  | CRead => look st CGot CDrain
+  | CDrain => mkQ (items st) (popped st) 0 (prods st) CRead2 (out st)
+  | CRead2 => look st CRenotify COut
+  | CRenotify => mkQ (items st) (popped st) (S (ev st)) (prods st) CGot (out st)
+  | CGot => mkQ (items st) (popped st) (ev st) (prods st) CRead (out st)
+  | CAfterLook _ => st
+  end.
+Definition cstop (st : qstate) : qstate :=
+  match cst st with
+  | CGot => mkQ (items st) (popped st) (ev st) (prods st) COut (out st)
+  | _ => st
+  end.
+
+(* the code between the first fix and this one: each pop() drained the notification and then looked; a caller that
+   stops with an entry in hand leaves the eventfd drained *)
+Definition cstep_drain_first (st : qstate) : qstate :=
   match cst st with
   | COut => if Nat.ltb 0 (ev st)
             then mkQ (items st) (popped st) (ev st) (prods st) CDrain (out st) else st
   | CDrain => mkQ (items st) (popped st) 0 (prods st) CRead (out st)
-  | CRead => look st CDrain COut
-  | CAfterLook _ => st
+  | CRead => look st CGot COut
+  | CGot => mkQ (items st) (popped st) (ev st) (prods st) CDrain (out st)
+  | _ => st
   end.
 
 (* the order the pinned snapshot had: look first, drain afterwards *)
@@ -90,22 +115,31 @@ Definition cstep_old (st : qstate) : qstate :=
   | CRead => look st (CAfterLook true) (CAfterLook false)
   | CAfterLook found =>
       mkQ (items st) (popped st) 0 (prods st) (if found then CRead else COut) (out st)
-  | CDrain => st
+  | _ => st
   end.
 
 Definition step (st : qstate) (a : actor) : qstate :=
   match a with
   | Consumer => cstep st
+  | ConsumerStop => cstop st
   | Producer i => pstep st i
   end.
 Definition step_old (st : qstate) (a : actor) : qstate :=
   match a with
   | Consumer => cstep_old st
+  | ConsumerStop => st
+  | Producer i => pstep st i
+  end.
+Definition step_drain_first (st : qstate) (a : actor) : qstate :=
+  match a with
+  | Consumer => cstep_drain_first st
+  | ConsumerStop => cstop st
   | Producer i => pstep st i
   end.
 
 Definition run (sched : list actor) (st : qstate) : qstate := fold_left step sched st.
 Definition run_old (sched : list actor) (st : qstate) : qstate := fold_left step_old sched st.
+Definition run_drain_first (sched : list actor) (st : qstate) : qstate := fold_left step_drain_first sched st.
 
 (* nothing left to do: every producer finished, the consumer is parked and will not be woken *)
 Definition quiescent (st : qstate) : bool :=
